@@ -237,6 +237,18 @@ func TestHarness(t *testing.T) {
 					emit(guard("relay", "cborBytesCodec", seed, func() SysRecord { return FamRelay(cborBytesCodec(), seed) }))
 				}
 			}
+			if has("nestedlink") {
+				switch cfg {
+				case 0:
+					emit(guard("nestedlink", "jsonRawCodec", seed, func() SysRecord { return FamNestedLink(jsonRawCodec(), seed) }))
+				case 1:
+					emit(guard("nestedlink", "jsonBytesCodec", seed, func() SysRecord { return FamNestedLink(jsonBytesCodec(), seed) }))
+				case 2:
+					emit(guard("nestedlink", "cborRawCodec", seed, func() SysRecord { return FamNestedLink(cborRawCodec(), seed) }))
+				default:
+					emit(guard("nestedlink", "cborBytesCodec", seed, func() SysRecord { return FamNestedLink(cborBytesCodec(), seed) }))
+				}
+			}
 			if has("enumrace") {
 				emit(guard("enumrace", "json-raw", seed, func() SysRecord { return FamEnumRace(seed) }))
 			}
